@@ -458,6 +458,17 @@ func (c *Conn) Write(b []byte) (int, error) {
 					} else {
 						cp[0] = 0xff
 					}
+				case 3: // a checksum type byte becomes another type with a checksum of the same size
+					switch cp[0] {
+					case 1:
+						cp[0] = 3
+					case 3:
+						cp[0] = 1
+					case 2:
+						cp[0] = 1
+					default:
+						cp[0] ^= 2
+					}
 				default:
 					m := hit.Mask
 					if m == 0 {
